@@ -90,6 +90,22 @@ ConfigBool == <<
 BoolFactors == SchemaBool \o ConfigBool
 NB == Len(BoolFactors)
 
+\* Schema constructs that trigger KNOWN defects of the generator (open findings of C17, see
+\* notes/C17.md).  They are factors like the others, but PINNED to FALSE in the cover -
+\* otherwise every row containing one would fail for the known reason and exercise nothing
+\* else - and each is enumerated once, in a small probe row of its own (ProbeNeeds).  When a
+\* defect is repaired the factor moves to SchemaBool and joins the pairwise cover.
+KnownDefect == <<
+  "q_nestedNullMix",         \* [[T]] and [[T!]] of one object type
+  "q_dirArgPredeclared",     \* directive argument named by a predeclared identifier
+  "q_funcSyntaxGoEnum",      \* enum bound to Go constants (with function syntax)
+  "q_stubKeywordType",       \* object type named by a Go keyword with resolvers (with the stub file)
+  "q_argNamedPanic",         \* field argument named panic
+  "q_autobindIntrospection", \* a type whose Go name is Type in an autobound package
+  "q_valueStructCycle3"      \* 3-cycle of non-null object references (with value struct fields)
+>>
+Pinned == {KnownDefect[i] : i \in 1..Len(KnownDefect)}
+
 WLs    == <<0, 1, 2, 8>>                       \* exec.worker_limit
 Inits  == <<"default", "custom", "replace">>   \* go_initialisms: none | extra initialisms | replace_defaults
 Modes  == <<"gen", "mixed", "bound">>          \* model block | model block + autobind of hand-written types
@@ -98,7 +114,8 @@ Resols == <<"single", "follow", "none">>       \* resolver.layout (none: no reso
 
 MultiFactors == <<"worker_limit", "go_initialisms", "models", "resolver">>
 Range(s) == {s[i] : i \in 1..Len(s)}
-Factors == Range(BoolFactors) \cup Range(MultiFactors)
+Factors == Range(BoolFactors) \cup Range(MultiFactors) \cup Pinned
+Varying == Factors \ Pinned
 
 Dom(f) == CASE f = "worker_limit"   -> Range(WLs)
             [] f = "go_initialisms" -> Range(Inits)
@@ -163,10 +180,35 @@ BoolVal(d, j) ==
                          THEN Bit(d[2], CubeIdx(BoolFactors[j]) - 1)
                          ELSE Rnd(1000 + d[2], j)
 
+RECURSIVE PinnedRec(_)
+PinnedRec(i) == IF i > Len(KnownDefect) THEN << >> ELSE (KnownDefect[i] :> FALSE) @@ PinnedRec(i + 1)
+PinnedFalse == PinnedRec(1)
+
 RECURSIVE RowRec(_, _)
-RowRec(d, j) == IF j > NB THEN Multi(d[4])
+RowRec(d, j) == IF j > NB THEN Multi(d[4]) @@ PinnedFalse
                 ELSE (BoolFactors[j] :> BoolVal(d, j)) @@ RowRec(d, j + 1)
 MkRow(d) == RowRec(d, 1)
+
+\* probe rows: everything at its default except what the construct needs, and the construct
+RECURSIVE DefaultRec(_)
+DefaultRec(j) == IF j > NB THEN [worker_limit |-> 0, go_initialisms |-> "default", models |-> "gen",
+                                  resolver |-> "single"] @@ PinnedFalse
+                 ELSE (BoolFactors[j] :> Default(BoolFactors[j])) @@ DefaultRec(j + 1)
+DefaultRow == DefaultRec(1)
+
+ProbeNeeds(q) ==
+  CASE q = "q_nestedNullMix"         -> [lists |-> TRUE]
+    [] q = "q_dirArgPredeclared"     -> [dirType |-> TRUE, idKeyword |-> TRUE]
+    [] q = "q_funcSyntaxGoEnum"      -> [builtinDir |-> TRUE, enum |-> TRUE,
+                                         use_function_syntax_for_execution_context |-> TRUE]
+    [] q = "q_stubKeywordType"       -> [stub |-> TRUE, idKeyword |-> TRUE]
+    [] q = "q_argNamedPanic"         -> [idKeyword |-> TRUE]
+    [] q = "q_autobindIntrospection" -> [idKeyword |-> TRUE, models |-> "bound"]
+    [] q = "q_valueStructCycle3"     -> [struct_fields_always_pointers |-> FALSE]
+
+ProbeRow(q) == (q :> TRUE) @@ ProbeNeeds(q) @@ DefaultRow
+RECURSIVE ProbeRows(_)
+ProbeRows(i) == IF i > Len(KnownDefect) THEN << >> ELSE <<ProbeRow(KnownDefect[i])>> \o ProbeRows(i + 1)
 
 RECURSIVE BitDescs(_)
 BitDescs(i) == IF i >= NBits THEN << >>
@@ -186,8 +228,9 @@ MkRows(ds, i) == IF i > Len(ds) THEN << >> ELSE <<MkRow(ds[i])>> \o MkRows(ds, i
 \* (none at present: every exclusion must be justified in notes/C17.md)
 Supported(r) == TRUE
 
-AllRows == MkRows(Descs, 1)
-CoverSeq == SelectSeq(AllRows, Supported)
+CoverPart == SelectSeq(MkRows(Descs, 1), Supported)
+NCover == Len(CoverPart)              \* rows 1..NCover: the cover; NCover+1..NRows: the probes
+CoverSeq == CoverPart \o ProbeRows(1)
 Cover == Range(CoverSeq)
 NRows == Len(CoverSeq)
 
@@ -196,22 +239,29 @@ NRows == Len(CoverSeq)
 \* every pair of values of two distinct factors occurs in a row.  (With a non-trivial
 \* Supported the pair must be exempt when no supported row can carry it; there is no
 \* exclusion at present, so the plain statement is checked.)
-Pairwise == \A j \in Factors : \A k \in Factors \ {j} :
+Pairwise == \A j \in Varying : \A k \in Varying \ {j} :
               \A u \in Dom(j) : \A v \in Dom(k) :
-                \E i \in 1..NRows : CoverSeq[i][j] = u /\ CoverSeq[i][k] = v
+                \E i \in 1..NCover : CoverSeq[i][j] = u /\ CoverSeq[i][k] = v
+
+\* known-defect constructs: absent from the cover, each present in exactly one probe row
+PinnedOK == /\ \A i \in 1..NCover : \A q \in Pinned : CoverSeq[i][q] = FALSE
+            /\ \A q \in Pinned : Cardinality({i \in 1..NRows : CoverSeq[i][q]}) = 1
 
 CubeCovered == Cube =>
   \A c \in 0..(Pow2(NCube) - 1) :
-    \E i \in 1..NRows : \A n \in 1..NCube : CoverSeq[i][CubeFactors[n]] = Bit(c, n - 1)
+    \E i \in 1..NCover : \A n \in 1..NCube : CoverSeq[i][CubeFactors[n]] = Bit(c, n - 1)
 
 DistinctCodes == \A j, k \in 1..NB : j # k => \E i \in 0..(NBits - 1) : Bit(j, i) # Bit(k, i)
 
 ASSUME CoverOK == /\ Extra >= 12 - (NBits + 1)
                   /\ DistinctCodes
                   /\ \A i \in 1..NRows : \A f \in Factors : CoverSeq[i][f] \in Dom(f)
+                  /\ DOMAIN DefaultRow = Factors
                   /\ Pairwise
+                  /\ PinnedOK
                   /\ CubeCovered
-                  /\ PrintT(<<"COVER", NRows, "rows", NB, "boolean factors", NBits, "code bits">>)
+                  /\ PrintT(<<"COVER", NCover, "rows", NB, "boolean factors", NBits, "code bits",
+                              NRows - NCover, "probe rows">>)
 
 (* ------------------------------------------------------------ the machine *)
 
@@ -240,9 +290,10 @@ Generate == /\ out = Pending
 \* the user changes schema and/or configuration and generates again in the same directory
 Evolve == /\ out # Pending
           /\ step < MaxEvolve
+          /\ start <= NCover
           /\ (start % EvolveEvery = 1 \/ EvolveEvery = 1)
           /\ row["models"] # "bound"
-          /\ LET n == ((start + step - 1) % NRows) + 1 IN
+          /\ LET n == ((start + step - 1) % NCover) + 1 IN
              row' = [f \in Factors |-> IF f \in Held THEN row[f] ELSE CoverSeq[n][f]]
           /\ out' = Pending
           /\ UNCHANGED <<start, step>>
